@@ -387,10 +387,55 @@ fn rational_case() -> impl Strategy<Value = Case> {
 }
 
 pub fn run_check(ctx: &Ctx) {
-    ctx.set_rule("exhaustive: all 86 registry units (name -> Compound -> CBOR -> back; the id written by the code equals the id documented in tools/gen/data.toml; a CBOR value hand-built from the documented id decodes to the same unit; ids pairwise distinct; every identifier pinned in harness/data/ids_pinned.json — what data written by the pinned build contains — still decodes, to a unit with the same singular/plural name, equal to the unit its documented name parses to) every shipped source record (reachable by its id in a started database with the id, description and URL the file holds; CBOR round trip) and every shipped constant (decode, re-encode, decode, equal, byte-identical, unit ids inside the registry; and, looked up by its own words, the constant stored in the index equals the one in the file field by field, tokens included); every accepted vocabulary word (parse -> CBOR -> back); generated: compounds of 1-6 units with every SI prefix (plus the gram's bias) and powers -9..9 built from documented ids, the same compounds written by hand in another map-key order (must decode to an equal compound with identical display and canonical re-encoding), rationals up to 2000 bits through CBOR and JSON, constants; non-trivial = derived unit / compound with >=2 units incl. a derived one / rational with >64-bit numerator / constant; distinct by case");
+    ctx.set_rule("unit expressions with powers at the boundaries of every integer width (2^7 .. 2^31, both signs) written and read back (==, Display); exhaustive: all 86 registry units (name -> Compound -> CBOR -> back; the id written by the code equals the id documented in tools/gen/data.toml; a CBOR value hand-built from the documented id decodes to the same unit; ids pairwise distinct; every identifier pinned in harness/data/ids_pinned.json — what data written by the pinned build contains — still decodes, to a unit with the same singular/plural name, equal to the unit its documented name parses to) every shipped source record (reachable by its id in a started database with the id, description and URL the file holds; CBOR round trip) and every shipped constant (decode, re-encode, decode, equal, byte-identical, unit ids inside the registry; and, looked up by its own words, the constant stored in the index equals the one in the file field by field, tokens included); every accepted vocabulary word (parse -> CBOR -> back); generated: compounds of 1-6 units with every SI prefix (plus the gram's bias) and powers -9..9 built from documented ids, the same compounds written by hand in another map-key order (must decode to an equal compound with identical display and canonical re-encoding), rationals up to 2000 bits through CBOR and JSON, constants; non-trivial = derived unit / compound with >=2 units incl. a derived one / rational with >64-bit numerator / constant; distinct by case");
     if std::env::var("VERIF_EMIT_PINS").is_ok() {
         emit_pins();
         std::process::exit(0);
+    }
+    // first, what needs nothing but the public parser, `==` and Display (no observation through the serialised
+    // shape): unit expressions with powers at the boundaries of every integer width, written and read back
+    {
+        let mut texts: Vec<String> = Vec::new();
+        let mut powers: Vec<i64> = vec![1, 2, -1, 0];
+        for k in [7u32, 8, 15, 16, 23, 24, 30] {
+            for d in [-1i64, 0, 1] {
+                powers.push((1i64 << k) + d);
+                powers.push(-(1i64 << k) + d);
+            }
+        }
+        powers.push(i32::MAX as i64);
+        powers.push(i32::MIN as i64 + 1);
+        for u in ["m", "km", "mg", "s", "J", "MB", "ft", "kWb", "yg", "°C"] {
+            for p in &powers {
+                texts.push(format!("{}^{}", u, p));
+                // a second, different unit (the same unit twice would add the powers: finding #19 at the boundary)
+                texts.push(format!("{}^{}*cd", u, p));
+            }
+        }
+        ctx.run_list(
+            "written-and-read-back(text, ==, Display)",
+            &texts,
+            |t| {
+                let r = guarded(t, || -> Result<bool, (String, String)> {
+                    let c: Compound = match t.parse() {
+                        Ok(c) => c,
+                        Err(_) => return Ok(false),
+                    };
+                    let bytes = serde_cbor::to_vec(&c).map_err(|e| ("compound-does-not-encode".to_string(), e.to_string()))?;
+                    let back: Compound = serde_cbor::from_slice(&bytes).map_err(|e| ("compound-does-not-decode".to_string(), e.to_string()))?;
+                    if back != c || back.to_string() != c.to_string() {
+                        return Err(("compound-roundtrip-differs".to_string(), format!("`{}` written and read back is `{}`", c, back)));
+                    }
+                    Ok(true)
+                });
+                match r {
+                    Err(p) => CaseReport::fail(t, "panic", json!({"text": t, "panic": p})),
+                    Ok(Err((sig, why))) => CaseReport::fail(t, sig, json!({"text": t, "why": why})),
+                    Ok(Ok(accepted)) => CaseReport::pass(t, accepted, vec![if accepted { "text-roundtrip" } else { "text-refused" }]),
+                }
+            },
+            |t| json!({"kind": "word", "word": t}),
+        );
     }
     let corpus: Vec<(String, Case)> = load_corpus("C17");
     let cases: Vec<Case> = corpus.into_iter().map(|c| c.1).collect();
